@@ -44,7 +44,7 @@ class PrefLibInstance:
         self.num_alternatives = 0
         self.alternatives_name = {}
         self.num_voters = 0
-        self.alt_name_pattern = re.compile(r"# ALTERNATIVE NAME (\d+): (.*)")
+        self.alt_name_pattern = re.compile(r"# ALTERNATIVE NAME (\d+): ?(.*)")
 
     def type_validator(self, data_type):
         """Returns a boolean indicating whether the data_type given as argument is a valid one for the python class.
